@@ -11,6 +11,44 @@ use serde_json::Value;
 
 pub struct C01;
 
+/// "macro atoms": alternations whose branches differ in length or are zero-width, so that a quantifier over them
+/// compiles to the general (backtracking, memoising) Repeat; sizes count the macro as one node, which brings
+/// nested counted loops over such repeats (`(?:a(?:a|bb)*){3}`) into an exhaustive scope
+pub fn macro_cfg() -> EnumCfg {
+    let alt = |v: Vec<Node>| Node::ncap(Node::Alt(v));
+    EnumCfg {
+        atoms: vec![
+            Node::Lit('a'),
+            Node::Lit('b'),
+            alt(vec![Node::Lit('a'), Node::Cat(vec![Node::Lit('b'), Node::Lit('b')])]),
+            alt(vec![Node::Lit('a'), Node::Bol]),
+            alt(vec![Node::Lit('a'), Node::Empty]),
+            alt(vec![Node::Cat(vec![Node::Lit('a'), Node::Lit('b')]), Node::Lit('a')]),
+        ],
+        quants: vec![(0, Some(1), true), (0, None, true), (1, None, true), (2, Some(2), true), (3, Some(3), true), (2, Some(3), true), (0, None, false), (1, None, false), (2, Some(3), false)],
+        cap: false,
+        noncap: false,
+        alt: true,
+        backref: false,
+    }
+}
+
+pub fn macro_enumeration(tier: Tier) -> (String, String, Box<dyn Iterator<Item = AstCase> + Send>) {
+    let size = tier.pick(5, 6);
+    let len = tier.pick(5, 6);
+    let nodes = enumerate::up_to(&macro_cfg(), size);
+    let inputs = enumerate::inputs(&['a', 'b'], len);
+    let scope = format!(
+        "all {} ASTs of size <= {} over atoms {{a, b, (?:a|bb), (?:a|^), (?:a|), (?:ab|a)}} (each counted as one node) x quantifiers {{?,*,+,{{2}},{{3}},{{2,3}},*?,+?,{{2,3}}?}} with concatenation and alternation x all {} inputs over {{a,b}} of length <= {}",
+        nodes.len(),
+        size,
+        inputs.len(),
+        len
+    );
+    let it = nodes.into_iter().map(move |node| AstCase { node, flags: String::new(), inputs: Inputs::Lit(inputs.clone()) });
+    ("exhaustive-nested-quantifiers".into(), scope, Box::new(it))
+}
+
 pub fn enum_cfg() -> EnumCfg {
     EnumCfg {
         atoms: vec![
@@ -161,7 +199,7 @@ impl Prop for C01 {
             let inputs = inputs.clone();
             flagsets.clone().into_iter().map(move |f| AstCase { node: node.clone(), flags: f, inputs: Inputs::Lit(inputs.clone()) })
         });
-        vec![("exhaustive-small".into(), scope, Box::new(it))]
+        vec![("exhaustive-small".into(), scope, Box::new(it)), macro_enumeration(tier)]
     }
     fn check(&self, case: &AstCase, ctx: &mut Ctx) -> Verdict {
         check_is_match("C01", case, ctx)
